@@ -5,6 +5,8 @@ import (
 	"fmt"
 	"math/rand"
 	"net"
+	"net/http"
+	"net/url"
 	"os"
 	"path/filepath"
 	"strconv"
@@ -42,6 +44,11 @@ func tunnelReplay(g *gwInstance, token string, server string, port int, xff stri
 	if xff != "" {
 		hdr["X-Forwarded-For"] = xff
 	}
+	return tunnelReplayHdr(g, token, server, port, hdr)
+}
+
+// tunnelReplayHdr presents the token over a websocket tunnel whose upgrade request carries hdr.
+func tunnelReplayHdr(g *gwInstance, token string, server string, port int, hdr map[string]string) string {
 	ws, st, _, err := wsDial(g, wsOpts{headers: hdr})
 	if err != nil || st != 101 {
 		return fmt.Sprintf("http%d,-", st)
@@ -334,6 +341,7 @@ func streamC12(env *runEnv) {
 				rq.login, hx([]byte(rq.user)), hx([]byte(rq.sub)), hx([]byte(at)), hx([]byte(clientIP)), hx([]byte(otherIP)), par, qt, strconv.Itoa(pickIdx),
 				strings.Join(hexAll(addrs), ","), obs)
 		}
+		c12Extras(env, idp, g, cf, ci, addrs)
 		g.stop()
 	}
 }
@@ -353,4 +361,154 @@ func splitHostPort(addr string) (string, int) {
 	}
 	n, _ := strconv.Atoi(p)
 	return h, n
+}
+
+// c12Extras: clauses of C12 (and of C04, C19 where they meet it) checked directly on a running
+// configuration: requests other than an authenticated GET are sent to the identity provider whatever their
+// method; the only request header that can name the client address is X-Forwarded-For; settings of the
+// client template that the gateway does not control reach the file unchanged.
+func c12Extras(env *runEnv, idp *fakeIdP, g *gwInstance, cf c12cfg, ci int, addrs []string) {
+	emit := func(what, verdict string) {
+		env.count("c12.extra." + strings.SplitN(verdict, ":", 2)[0])
+		env.emit("exact", fmt.Sprintf("cfg%d-%s", ci, what), verdict)
+	}
+	// (1) methods
+	for _, m := range []string{"POST", "HEAD", "PUT", "DELETE", "OPTIONS"} {
+		req, _ := http.NewRequest(m, g.base()+"/connect", nil)
+		resp, err := newBrowser().c.Do(req)
+		v := "exact"
+		if err != nil {
+			v = "no-response"
+		} else {
+			resp.Body.Close()
+			if resp.StatusCode != 302 || !strings.HasPrefix(resp.Header.Get("Location"), idp.srv.URL) {
+				v = fmt.Sprintf("status-%d-location-%q", resp.StatusCode, resp.Header.Get("Location"))
+			}
+		}
+		emit("unauthenticated-"+m+"-connect-goes-to-the-identity-provider", v)
+	}
+	if ci > 1 && !cf.hostileDefaults {
+		return
+	}
+	login := func(user, xff string) (string, string) { // returns the file body and the status
+		b := newBrowser()
+		b.xff = xff
+		at := fmt.Sprintf("c12x-at-%d-%d-%s-%s", env.seed, ci, user, xff)
+		idp.setToken(at, atBehaviour{kind: "valid", sub: user})
+		idp.setCode("code-"+at, codeBehaviour{kind: "ok", accessToken: at, claims: map[string]interface{}{"preferred_username": user}})
+		b.login(g, "/connect", "code-"+at)
+		path := "/connect"
+		if cf.mode == "unsigned" || cf.mode == "any" {
+			path += "?host=" + urlEscape(addrs[0])
+		}
+		resp, body, err := b.get(g.base() + path)
+		if err != nil || resp.StatusCode != 200 {
+			return "", "no-file"
+		}
+		return body, ""
+	}
+	// (2) headers that name a client address
+	if cf.verify && cf.mode == "roundrobin" && !cf.tls {
+		if body, bad := login("alice", ""); bad == "" {
+			tok, _ := rdpField(body, "gatewayaccesstoken")
+			addr, _ := rdpField(body, "full address")
+			server, port := splitHostPort(addr)
+			for _, h := range []string{"X-Real-Ip", "True-Client-Ip", "X-Client-Ip", "Forwarded", "X-Forwarded", "Cf-Connecting-Ip"} {
+				val := "203.0.113.9"
+				if h == "Forwarded" {
+					val = "for=203.0.113.9"
+				}
+				v := "exact"
+				if r := tunnelReplayHdr(g, tok, server, port, map[string]string{h: val}); r != "0,0" {
+					v = "refused-from-the-issuing-address:" + r
+				}
+				emit("token-of-the-peer-address-presented-by-the-peer-with-"+h, v)
+			}
+		} else {
+			emit("token-of-the-peer-address", bad)
+		}
+		if body, bad := login("alice", "203.0.113.5"); bad == "" {
+			tok, _ := rdpField(body, "gatewayaccesstoken")
+			addr, _ := rdpField(body, "full address")
+			server, port := splitHostPort(addr)
+			for _, h := range []string{"X-Real-Ip", "True-Client-Ip", "X-Client-Ip", "Forwarded", "Cf-Connecting-Ip"} {
+				val := "203.0.113.5"
+				if h == "Forwarded" {
+					val = "for=203.0.113.5"
+				}
+				v := "exact"
+				if r := tunnelReplayHdr(g, tok, server, port, map[string]string{h: val}); strings.HasSuffix(r, ",0") {
+					v = "accepted-from-another-address-naming-the-issuing-one-in-" + h
+				}
+				emit("token-of-203.0.113.5-presented-by-the-peer-with-"+h, v)
+			}
+			// a chain: the first element names the client, whatever the others are
+			for _, chain := range []string{"203.0.113.5, 10.0.0.1", "203.0.113.5, 198.51.100.1, 10.0.0.1"} {
+				v := "exact"
+				if r := tunnelReplay(g, tok, server, port, chain); r != "0,0" {
+					v = "refused-from-the-issuing-address:" + r
+				}
+				emit("token-of-203.0.113.5-presented-through-"+strings.ReplaceAll(chain, " ", ""), v)
+			}
+			for _, chain := range []string{"10.1.2.3, 203.0.113.5", "192.168.0.9, 203.0.113.5, 10.0.0.1", "127.0.0.1, 203.0.113.5"} {
+				v := "exact"
+				if r := tunnelReplay(g, tok, server, port, chain); strings.HasSuffix(r, ",0") {
+					v = "accepted-although-the-first-address-differs"
+				}
+				emit("token-of-203.0.113.5-presented-through-"+strings.ReplaceAll(chain, " ", ""), v)
+			}
+		}
+		// a token presented from another address together with the session cookie of somebody who is logged in
+		if body, bad := login("alice", "203.0.113.5"); bad == "" {
+			tok, _ := rdpField(body, "gatewayaccesstoken")
+			addr, _ := rdpField(body, "full address")
+			server, port := splitHostPort(addr)
+			bm := newBrowser()
+			bm.xff = "198.51.100.66"
+			atm := fmt.Sprintf("c12x-at-%d-%d-mallory", env.seed, ci)
+			idp.setToken(atm, atBehaviour{kind: "valid", sub: "mallory"})
+			idp.setCode("code-"+atm, codeBehaviour{kind: "ok", accessToken: atm, claims: map[string]interface{}{"preferred_username": "mallory"}})
+			bm.login(g, "/connect", "code-"+atm)
+			u, _ := url.Parse(g.base())
+			var ck []string
+			for _, c := range bm.jar.Cookies(u) {
+				ck = append(ck, c.Name+"="+c.Value)
+			}
+			v := "exact"
+			if r := tunnelReplayHdr(g, tok, server, port, map[string]string{"X-Forwarded-For": "198.51.100.66", "Cookie": strings.Join(ck, "; ")}); strings.HasSuffix(r, ",0") {
+				v = "accepted-from-another-address-with-a-logged-in-session-cookie"
+			}
+			emit("token-of-203.0.113.5-presented-by-198.51.100.66-with-its-own-session-cookie", v)
+		}
+		// issuance: the address recorded is the first element also when it is a private one
+		if body, bad := login("alice", "10.1.2.3, 203.0.113.9"); bad == "" {
+			tok, _ := rdpField(body, "gatewayaccesstoken")
+			addr, _ := rdpField(body, "full address")
+			server, port := splitHostPort(addr)
+			v := "exact"
+			if r := tunnelReplay(g, tok, server, port, "10.1.2.3"); r != "0,0" {
+				v = "refused-from-the-issuing-address:" + r
+			}
+			emit("token-issued-through-10.1.2.3,203.0.113.9-presented-by-10.1.2.3", v)
+			v = "exact"
+			if r := tunnelReplay(g, tok, server, port, "203.0.113.9"); strings.HasSuffix(r, ",0") {
+				v = "accepted-from-the-proxy-address"
+			}
+			emit("token-issued-through-10.1.2.3,203.0.113.9-presented-by-203.0.113.9", v)
+		}
+	}
+	// (3) template settings the gateway does not control
+	if cf.hostileDefaults {
+		if body, bad := login("alice", ""); bad == "" {
+			v := "exact"
+			for _, line := range []string{"networkautodetect:i:0", "audiomode:i:2"} {
+				if !strings.Contains(body, line+"\r\n") && !strings.Contains(body, line+"\n") {
+					v = "template-setting-lost:" + line
+				}
+			}
+			emit("template-settings-kept", v)
+		} else {
+			emit("template-settings-kept", bad)
+		}
+	}
 }
